@@ -4,8 +4,9 @@
    Model/Config.v): Dc cos z (comoving distance), Dci cos d (the redshift the root finder returns
    for a distance), Lg z (ln(1+z)), Ex x (e^x - 1).  Every property of the oracles that a
    statement needs is a premise written out in the statement.
-   [create true], [modify true], [config_eq true] ... are the repaired model; [... false] is the
-   model of the code of the pinned commit (the _refuted and _current statements). *)
+   [create true], [modify true], [config_eq true] ... are the repaired model = the code of /repo
+   after its fix commits (listed in Model/Config.v); [... false] is the model of the code of the
+   pinned commit 462b5d4 (the _refuted and _current statements). *)
 From Verif Require Import Prelude Config ConfigP.
 Open Scope Q_scope.
 
